@@ -1,5 +1,5 @@
 (* Property C07 - dotted, bracket-indexed and JSON-Pointer spellings of a path are interchangeable. Parser half: every mix of .name / .digits / ["literal"] and the pointer spelling is read as the same path (Spell.v, Ptr.v); evaluator half: eval consumes a selector only through its path (C07b.v). Statements only. *)
-From Coq Require Import List String ZArith NArith Bool. From Bexpr Require Import Base Strconv Ast Unicode Peg Typing Actions GoGrammar Sem Calc Calc2 Lex Lex2 Lex3 Skel Top C07 Spell Ptr Univ Eval C07b C10 ActionsPinned ActionsPinBy. Import ListNotations.
+From Coq Require Import List String ZArith NArith Bool. From Bexpr Require Import Base Strconv Ast Unicode Peg Typing Actions GoGrammar Sem Calc Calc2 Lex Lex2 Lex3 Skel Top C07 Spell Ptr Univ Eval C07b C10 ActionsPinned ActionsPinBy ActionsPinSel. Import ListNotations.
 
 Theorem c07_pointer_escapes :
   forall s : string, ptr_unescape (ptr_escape s) = s.
@@ -95,5 +95,5 @@ Print Assumptions raw_part_drops_cr.
 (* the selector rules' code blocks in grammar.go are the ones the action semantics above was written against *)
 Theorem c07_selector_actions_as_modelled :
   about selector_rules GoGrammar.go_actions = about selector_rules ActionsPinned.pinned_actions.
-Proof. exact ActionsPinBy.selector_actions_pinned. Qed.
+Proof. exact ActionsPinSel.selector_actions_pinned. Qed.
 Print Assumptions c07_selector_actions_as_modelled.
